@@ -179,6 +179,8 @@ static void build_ops(bool thorough) {
 		add({"b=Arr(" + ss + ",8,alloc)", "construct(extents,value,alloc)", "C04", F_NONE, [s](MPool& m) { m.b = m_fresh(s, IDB, [](idx) { return 8; }); return true; }, [s](Pool& p) { p.b = std::make_unique<Arr>(X(s), T(8), Alloc(IDB)); }, {}});
 		if(ALLOC_MODE) { add({"b=Arr(" + ss + ",6,alloc#1)", "construct(extents,value,alloc)", "C04", F_NONE, [s](MPool& m) { m.b = m_fresh(s, IDA, [](idx) { return 6; }); return true; }, [s](Pool& p) { p.b = std::make_unique<Arr>(X(s), T(6), Alloc(IDA)); }, {}}); }
 		add({"b=iota" + ss, "construct+element-writes", "C04", F_NONE, [s](MPool& m) { m.b = m_fresh(s, 0, [](idx i) { return static_cast<int>(200 + i); }); return true; }, [s](Pool& p) { p.b = std::make_unique<Arr>(X(s)); iota(*p.b, 200); }, {}});
+		add({"a=array<T,std::allocator>" + ss, "a=array<other allocator type>", "C04", F_SAME_EXT_NO_ALLOC | F_ALLOC_UNSPEC, [s](MPool& m) { m.a.ext = s; m.a.v.assign(static_cast<std::size_t>(prod(s)), 0); for(idx i = 0; i < prod(s); ++i) { m.a.v[static_cast<std::size_t>(i)] = static_cast<int>(800 + i); } return true; },
+			[s](Pool& p) { bool const cf = W.count_faults; W.count_faults = false; multi::array<T, D> o(X(s)); for(idx i = 0; i < o.num_elements(); ++i) { o.data_elements()[i] = T(static_cast<int>(800 + i)); } W.count_faults = cf; *p.a = o; }, {}});
 		// ---- C06
 		auto rc = [s](MPool const& m) { return rel_class(m.a.ext, m.a.count(), s); };
 		add({"a.reextent(" + ss + ")", "reextent(x)", "C06", F_KEEP_DATA_IF_SAME, [s](MPool& m) { m.a = m_reextent(m.a, s, DFLT); return true; }, [s](Pool& p) { p.a->reextent(X(s)); }, rc});
